@@ -38,3 +38,18 @@ func (h *Handler) VerifLeases() []VerifLease {
 	sort.Slice(out, func(i, j int) bool { return string(out[i].ClientID) < string(out[j].ClientID) })
 	return out
 }
+
+// VerifAgeLeases lets d of wall-clock time pass for the lease table: every expiry (lease and offer) moves d
+// into the past. Nothing else changes - in particular no lease is freed; that is MinuteTicker's job.
+func (h *Handler) VerifAgeLeases(d time.Duration) {
+	h.Lock()
+	defer h.Unlock()
+	for _, l := range h.table {
+		if !l.DHCPExpiry.IsZero() {
+			l.DHCPExpiry = l.DHCPExpiry.Add(-d)
+		}
+		if !l.OfferExpiry.IsZero() {
+			l.OfferExpiry = l.OfferExpiry.Add(-d)
+		}
+	}
+}
